@@ -246,8 +246,18 @@ pub fn gen_session(prop: &str, seed: u64, profile: u8, faults: bool) -> Case {
             (root_cmd(r), r.class)
         };
         let pre_n = if rng.chance(1, 2) { 0 } else { rng.below(10) };
-        let pre = walk(&mut rng, &root, pre_n);
-        let class = if pre.len() > 4 { class.max(1) } else { class };
+        let mut pre = walk(&mut rng, &root, pre_n);
+        let mut root = root;
+        let mut class = if pre.len() > 4 { class.max(1) } else { class };
+        if rng.chance(1, 15) {
+            let (f, m) = *rng.pick(PERPETUALS);
+            root = format!("fen {}", f);
+            pre = m.split_ascii_whitespace().map(|x| x.to_string()).collect();
+            if rng.chance(1, 2) {
+                pre.pop();
+            }
+            class = 0;
+        }
         case.push(GK::NewGame { root: root.clone(), pre });
         let turns = if profile == 0 { rng.range(1, 4) } else { rng.range(2, 8) };
         for t in 0..turns {
@@ -330,6 +340,15 @@ pub fn gen_direct_history(prop: &str, seed: u64, faults: bool) -> Case {
         let n_walk = rng.below(24);
         let mut line = walk(&mut rng, &root, n_walk);
         let mut at = rng.below(line.len() as u64 + 1) as usize;
+        let (root, class) = if rng.chance(1, 12) {
+            // a perpetual-check line: forced single replies that repeat the position (root repetition filter)
+            let (f, m) = *rng.pick(PERPETUALS);
+            line = m.split_ascii_whitespace().map(|x| x.to_string()).collect();
+            at = rng.range(3, line.len() as u64) as usize;
+            (f.to_string(), 0u8)
+        } else {
+            (root, class)
+        };
         let n_items = rng.range(2, 10);
         for _ in 0..n_items {
             let cls = if at > 4 { class.max(1) } else { class };
